@@ -1393,12 +1393,12 @@ def execute_gll(case, ctx):
 
 
 SUBS = [
-    Sub("policies", execute, strategy=lambda tier: cases(tier), budget={"quick": 1600, "thorough": 12000}, shards=16,
+    Sub("policies", execute, strategy=lambda tier: cases(tier), budget={"quick": 4800, "thorough": 12000}, shards=16,
         shrink=False, minimize=minimize, weight=2.0),
-    Sub("matnet_ffsp", execute_ffsp, strategy=lambda tier: ffsp_cases(tier), budget={"quick": 160, "thorough": 3000},
+    Sub("matnet_ffsp", execute_ffsp, strategy=lambda tier: ffsp_cases(tier), budget={"quick": 480, "thorough": 3000},
         shards=16, shrink=False, minimize=ffsp_minimize),
-    Sub("mdam", execute_mdam, strategy=lambda tier: mdam_cases(tier), budget={"quick": 96, "thorough": 2400},
+    Sub("mdam", execute_mdam, strategy=lambda tier: mdam_cases(tier), budget={"quick": 288, "thorough": 2400},
         shards=16, shrink=False, minimize=mdam_minimize),
     Sub("get_log_likelihood", execute_gll, strategy=lambda tier: gll_cases(tier),
-        budget={"quick": 1500, "thorough": 20000}, shards=4, shrink=True),
+        budget={"quick": 4496, "thorough": 20000}, shards=4, shrink=True),
 ]
